@@ -2516,6 +2516,273 @@ def k_fsloader_find(E, tier):
     return rec
 
 
+def k_lock_pairing(E, tier):
+    """C02 (pairing) / C04 (plain-CSS fallback): in the @use, @forward and @import arms of handle_item every
+    file that find_file handed out (locked) is unlocked exactly once before the arm goes on or returns Ok —
+    for both kinds of parsed file — so that only a real cycle can meet a lock; and an @import that finds no
+    file is emitted as a plain CSS import only for http://, https://, //, *.css or url() targets (or when it
+    has media arguments), and is an error otherwise."""
+    items = E.load_enum("sass/item.rs", "Item", "sass::item::Item")
+    f = E.find(name="handle_item")
+    rec = Rec("handle_item (@use / @forward / @import arms: lock pairing, CSS fallback)", f, E)
+    for arm in ("Use", "Forward", "Import"):
+        ctx = E.ctx()
+        item = sym.Opaque("sass::item::Item", "item", ctx)
+        ctx.assumptions.append("(= %s %s)" % (item.discriminant().term, bvlit(items.index(arm), 64)))
+        files, preds = [], {}
+
+        def full(ex, st, x):
+            while isinstance(x, sym.Ref):
+                x = ex.deref(st, x)
+            return x
+
+        def m_find(ex, st, c, a, d, files=files, ctx=ctx):
+            k = sum(1 for e in st.events if e.callee == "find")
+            while len(files) <= k:
+                files.append(sym.Opaque("SourceFile", "file%d" % len(files), ctx))
+            out = []
+            for kind, val in (("err", sym.Agg(d, "Err", {"0": sym.Opaque("Error", "find-error", ctx)}, 1)),
+                              ("none", sym.Agg(d, "Ok", {"0": sym.Agg("Option", "None", {}, 0)}, 0)),
+                              ("some", sym.Agg(d, "Ok", {"0": sym.Agg("Option", "Some", {"0": files[k]}, 1)}, 0))):
+                s2 = st.fork()
+                e = sym.Event("find", a, kind, len(st.pc))
+                e.rargs = [full(ex, st, x) for x in a]
+                s2.events.append(e)
+                out.append((s2, val))
+            return out
+
+        def m_unlock(ex, st, c, a, d):
+            e = sym.Event("unlock", a, None, len(st.pc))
+            e.rargs = [full(ex, st, x) for x in a]
+            st.events.append(e)
+            return sym.Unit()
+
+        def m_pred(name):
+            def m(ex, st, c, a, d, ctx=ctx, preds=preds):
+                pat = a[1].s if len(a) > 1 and isinstance(a[1], sym.ConstStr) else ""
+                b = ctx.fresh_scalar("bool", name + pat)
+                n = sum(1 for e in st.events if e.callee == "next-some")
+                preds.setdefault(n, {})[name + ":" + pat] = b
+                return b
+            return m
+
+        def m_next(ex, st, c, a, d, ctx=ctx):
+            n = sum(1 for e in st.events if e.callee == "next-some")
+            if n >= 2:
+                st.events.append(sym.Event("cut", [], None, len(st.pc)))
+                return sym.Agg(d, "None", {}, 0)
+            some, none = st.fork(), st.fork()
+            some.events.append(sym.Event("next-some", [], None, len(st.pc)))
+            none.events.append(sym.Event("next-none", [], None, len(st.pc)))
+            return [(some, sym.Agg(d, "Some", {"0": sym.Ref("val", sym.Opaque("SassString", "name%d" % n, ctx))}, 1)), (none, sym.Agg(d, "None", {}, 0))]
+
+        def m_push_import(ex, st, c, a, d):
+            st.events.append(sym.Event("push_import", a, None, len(st.pc)))
+            return sym.Unit()
+
+        paths_of = {}
+
+        def m_path(ex, st, c, a, d, paths_of=paths_of, ctx=ctx):
+            fobj = full(ex, st, a[0])
+            if id(fobj) not in paths_of:
+                paths_of[id(fobj)] = (fobj, sym.Opaque("&str", "path-of-%s" % getattr(fobj, "name", "?"), ctx))
+            return paths_of[id(fobj)][1]
+
+        def m_load_module(ex, st, c, a, d, ctx=ctx):
+            ok, err = st.fork(), st.fork()
+            e = sym.Event("load_module", a, None, len(st.pc))
+            e.rargs = [full(ex, st, x) for x in a]
+            ok.events.append(e)
+            return [(ok, sym.Agg(d, "Ok", {"0": sym.Opaque("ScopeRef", "module", ctx)}, 0)), (err, sym.Agg(d, "Err", {"0": sym.Opaque("Error", "module-error", ctx)}, 1))]
+
+        models = [
+            (r"::find_file$", m_find), (r"::unlock_loading$", m_unlock),
+            (r"^core::str::<impl str>::starts_with::<&str>$", m_pred("starts_with")), (r"^core::str::<impl str>::ends_with::<&str>$", m_pred("ends_with")),
+            (r"^CssString::is_css_url$", m_pred("is_css_url")), (r"^sass::value::Value::is_null$", m_pred("args_is_null")),
+            (r"^<std::slice::Iter<'_, SassString> as Iterator>::next$", m_next),
+            (r"::push_import$", m_push_import),
+            (r"^SourceFile::path$", m_path), (r"^CssData::load_module::<", m_load_module),
+        ] + BASE_MODELS
+        ex = sym.Executor(ctx, models=models, unroll=4, feasibility=E.feasibility(ctx), max_paths=6000)
+        paths = [p for p in ex.run(f, [sym.Ref("val", item), sym.Opaque("&mut dyn CssDestination", "dest", ctx),
+                                       sym.Opaque("ScopeRef", "scope", ctx), sym.Opaque("&mut Context", "fctx", ctx)]) if p.status == "return"]
+        rec.paths += len(paths)
+        n_ok = n_pair = n_fb = 0
+        bad_pair, bad_fb, unknown = [], [], 0
+        for i, p in enumerate(paths):
+            if any(e.callee == "cut" for e in p.events):
+                continue
+            ret = p.ret
+            if isinstance(ret, sym.Opaque):
+                unknown += 1
+                continue
+            if not (isinstance(ret, sym.Agg) and ret.variant in ("Ok", "Err")):
+                unknown += 1
+                continue
+            if ret.variant == "Err":
+                continue
+            n_ok += 1
+            seq = [e for e in p.events if e.callee in ("find", "unlock", "push_import", "next-some")]
+            held = None
+            good = True
+            for e in seq:
+                if e.callee == "find":
+                    if held is not None:
+                        good = False
+                    if e.result == "some":
+                        k = sum(1 for x in seq[:seq.index(e)] if x.callee == "find")
+                        held = files[k]
+                elif e.callee == "unlock":
+                    if held is None or e.rargs[1] is not held:
+                        good = False
+                    held = None
+                elif e.callee == "next-some" and held is not None:
+                    good = False
+            if held is not None:
+                good = False
+            if any(e.callee == "find" and e.result == "some" for e in seq):
+                n_pair += 1
+                if not good:
+                    bad_pair.append(i)
+            # fallback: an iteration whose lookup found nothing and that went on to push_import
+            if arm == "Import":
+                it = -1
+                state = {}
+                for e in seq:
+                    if e.callee == "next-some":
+                        it += 1
+                    elif e.callee == "find" and e.result == "none":
+                        state[it] = "notfound"
+                    elif e.callee == "push_import" and state.get(it) == "notfound":
+                        pr = preds.get(it + 1, {})
+                        terms = [b.term for k_, b in pr.items() if not k_.startswith("args_is_null")]
+                        n_fb += 1
+                        if not terms:
+                            bad_fb.append(i)
+                            continue
+                        r = E.decide(ctx, p.pc + ["(not (or false %s))" % " ".join(terms)])
+                        if r["verdict"] != "holds":
+                            bad_fb.append(i)
+        if n_ok == 0 or n_pair == 0:
+            rec.add("@%s arm: a path that obtains a file and returns Ok exists (shape not recognised; %d paths with unknown result)" % (arm.lower(), unknown),
+                    {"verdict": "inconclusive", "per_solver": {}, "time_s": 0})
+            continue
+        rec.add("@%s arm: on all %d Ok paths that obtained a file, that file is unlocked exactly once, before the next lookup and before returning" % (arm.lower(), n_pair),
+                {"verdict": "holds" if not bad_pair else "violated", "per_solver": {"structural": "event order %s" % bad_pair[:5]}, "time_s": 0})
+        if arm in ("Use", "Forward"):
+            # the module cache is keyed by the path of the file that was found (not by the URL as written)
+            n_lm, bad_key = 0, []
+            for i, p in enumerate(paths):
+                lm = [e for e in p.events if e.callee == "load_module"]
+                fd = [e for e in p.events if e.callee == "find" and e.result == "some"]
+                if not lm:
+                    continue
+                n_lm += 1
+                key = lm[0].rargs[1] if len(lm[0].rargs) > 1 else None
+                want = [po for (fo, po) in paths_of.values() if fd and fo is files[0]]
+                if len(lm) != 1 or not want or key is not want[0]:
+                    bad_key.append(i)
+            if n_lm == 0:
+                rec.add("@%s arm: the module cache is consulted (shape not recognised)" % arm.lower(), {"verdict": "inconclusive", "per_solver": {}, "time_s": 0})
+            else:
+                rec.add("@%s arm: the module cache is asked once, with the resolved path of the file that was found as its key" % arm.lower(),
+                        {"verdict": "holds" if not bad_key else "violated", "per_solver": {"structural": "event identity %s" % bad_key[:5]}, "time_s": 0})
+        if arm == "Import":
+            if n_fb == 0:
+                rec.add("@import arm: the plain-CSS fallback path exists (shape not recognised)", {"verdict": "inconclusive", "per_solver": {}, "time_s": 0})
+            else:
+                rec.add("@import arm: on all %d paths that emit a plain CSS import after a failed lookup, the URL is http://, https://, //, *.css or url()" % n_fb,
+                        {"verdict": "holds" if not bad_fb else "violated", "per_solver": {"z3+cvc5": "pc implies the disjunction", "paths": str(bad_fb[:5])}, "time_s": 0})
+    rec.notes.append("one or two imported names per @import; parse, load_module, handle_body, do_use … are opaque calls whose Result forks into Ok and Err")
+    return rec
+
+
+def k_module_init(E, tier):
+    """C36 (and the style part of C08): the initialiser closures of the @use and @forward arms create the
+    module's global scope with the *using* compilation's output format (style and precision), evaluate the
+    parsed file in exactly that scope, and return it — so a used module is compressed (and drops its loud
+    comments) exactly when the compilation is."""
+    rec = None
+    for which, marker in (("@use", "79"), ("@forward", "129")):
+        cands = [g for g in E.funcs if re.match(r"^handle_item::\{closure#\d+\}$", g.name) and "ScopeRef::new_global" in g.source() and "handle_parsed" in g.source()]
+        cands.sort(key=lambda g: g.line)
+        idx = 0 if which == "@use" else 1
+        if len(cands) != 2:
+            raise sym.Unsupported("expected the two module initialiser closures of handle_item, found %d" % len(cands))
+        f = cands[idx]
+        if rec is None:
+            rec = Rec("handle_item module initialiser closures (@use / @forward)", f, E)
+        ctx = E.ctx()
+        scope = sym.Opaque("ScopeRef", "using-scope", ctx)
+        fmt = sym.Opaque("Format", "format-of-using-scope", ctx)
+        module = sym.Opaque("ScopeRef", "module", ctx)
+
+        def full(ex, st, x):
+            while isinstance(x, sym.Ref):
+                x = ex.deref(st, x)
+            return x
+
+        def m_deref(ex, st, c, a, d):
+            return sym.Ref("val", full(ex, st, a[0]))
+
+        def m_get_format(ex, st, c, a, d, fmt=fmt):
+            e = sym.Event("get_format", a, fmt, len(st.pc))
+            e.rargs = [full(ex, st, x) for x in a]
+            st.events.append(e)
+            return fmt
+
+        def m_new_global(ex, st, c, a, d, module=module):
+            e = sym.Event("new_global", a, module, len(st.pc))
+            e.rargs = [full(ex, st, x) for x in a]
+            st.events.append(e)
+            return module
+
+        def m_clone(ex, st, c, a, d):
+            return full(ex, st, a[0])
+
+        def m_next(ex, st, c, a, d):
+            return sym.Agg(d, "None", {}, 0)  # no `with` configuration
+
+        def m_res(name):
+            def m(ex, st, c, a, d, ctx=ctx):
+                ok, err = st.fork(), st.fork()
+                e = sym.Event(name, a, None, len(st.pc))
+                e.rargs = [full(ex, st, x) for x in a]
+                ok.events.append(e)
+                return [(ok, sym.Agg(d, "Ok", {"0": sym.Opaque("T", name + "-result", ctx)}, 0)), (err, sym.Agg(d, "Err", {"0": sym.Opaque("Error", name + "-error", ctx)}, 1))]
+            return m
+
+        models = [
+            (r"^<ScopeRef as Deref>::deref$", m_deref), (r"^variablescope::Scope::get_format$", m_get_format), (r"^ScopeRef::new_global$", m_new_global),
+            (r"^<ScopeRef as Clone>::clone$", m_clone), (r"^<std::slice::Iter<'_, \(Name, sass::value::Value, bool\)> as Iterator>::next$", m_next),
+            (r"^SourceFile::parse$", m_res("parse")), (r"^handle_parsed::<", m_res("handle_parsed")),
+        ] + BASE_MODELS
+        ex = sym.Executor(ctx, models=models, feasibility=E.feasibility(ctx))
+        env = sym.Opaque("closure", "env", ctx)
+        # the first capture read through `.0` is the using scope in both closures; make every captured ScopeRef the same object
+        paths = [p for p in ex.run(f, [env, sym.Opaque("&mut CssData", "dest", ctx)]) if p.status == "return"]
+        rec.paths += len(paths)
+        okp = [p for p in paths if isinstance(p.ret, sym.Agg) and p.ret.variant == "Ok"]
+        if not okp:
+            rec.add("%s initialiser: an Ok path exists (shape not recognised)" % which, {"verdict": "inconclusive", "per_solver": {}, "time_s": 0})
+            continue
+        for i, p in enumerate(okp):
+            gf = [e for e in p.events if e.callee == "get_format"]
+            ng = [e for e in p.events if e.callee == "new_global"]
+            hp = [e for e in p.events if e.callee == "handle_parsed"]
+            if len(ng) != 1 or len(hp) != 1:
+                rec.add("%s initialiser path %d: one new global scope, one evaluation of the parsed file (shape not recognised)" % (which, i), {"verdict": "inconclusive", "per_solver": {}, "time_s": 0})
+                continue
+            captured_scopes = {id(e.rargs[0]) for e in gf}
+            fmt_ok = len(gf) >= 1 and ng[0].rargs[0] is fmt and all(isinstance(e.rargs[0], sym.Opaque) and e.rargs[0].name.startswith("env") for e in gf)
+            rec.add("%s initialiser path %d: the module's global scope gets the format read from the using scope" % (which, i),
+                    {"verdict": "holds" if fmt_ok else "violated", "per_solver": {"structural": "event identity"}, "time_s": 0})
+            same = p.ret.fields["0"] is module and any(x is module for x in hp[0].rargs)
+            rec.add("%s initialiser path %d: the parsed file is evaluated in that scope, and that scope is the module returned" % (which, i),
+                    {"verdict": "holds" if same else "violated", "per_solver": {"structural": "event identity"}, "time_s": 0})
+    return rec
+
+
 def k_value_eq_symmetric(E, tier):
     """C12: css::Value::eq is symmetric as a function of the two values' kinds and of the (symmetric)
     comparisons of their parts: eq(a,b) and eq(b,a) are executed symbolically and must be the same
